@@ -1568,6 +1568,8 @@ fn child_main() -> ! {
         }
         let signal = if status >= 0 && libc::WIFSIGNALED(status) { Some(libc::WTERMSIG(status)) } else { None };
         let code = if status >= 0 && libc::WIFEXITED(status) { Some(libc::WEXITSTATUS(status)) } else { None };
+        // the forked process may have died in the middle of a line (or after a stderr message without newline)
+        unsafe { libc::write(1, b"\n".as_ptr() as *const c_void, 1) };
         emit(json!({"e": "exit", "signal": signal, "code": code, "timeout": timed_out}));
     }
 }
